@@ -80,7 +80,7 @@ def analyse_search_helper(ctx):
         if rec_call(e):
             return S, "recursive result"
         if isinstance(e, ast.Call) and isinstance(e.func, ast.Name) and e.func.id == "IndexResult":
-            a0 = e.args[0] if e.args else None
+            a0 = e.args[0] if e.args else next((k.value for k in e.keywords if k.arg == "items"), None)
             if a0 is not None and isinstance(a0, ast.Call) and isinstance(a0.func, ast.Attribute) \
                     and is_self_attr(a0.func):
                 return EXACT, f"leaf {a0.func.attr} (exact iff C01.R2/R3 hold for it)"
@@ -319,6 +319,14 @@ def leaf_scan_agreement(ctx):
                                    f"tested value ({sorted(tn)})")
                 yield Ob("C01.R2", ["C01"], f"{f.qual} | add under test | {norm(st.test, 80)}{occ(f, st)}", ok2, msg,
                          ctx.prog.loc(st))
+        # every stored value is examined: no break/return inside a loop that evaluates the test
+        for lp in walk_local(f.node):
+            if isinstance(lp, (ast.For, ast.While)) and any(t in list(ast.walk(lp)) for t in tests):
+                exits = [x for x in walk_local(lp) if isinstance(x, (ast.Break, ast.Return))]
+                yield Ob("C01.R2", ["C01"], f"{f.qual} | leaf loop examines every stored value | {first_line(lp, 70)}",
+                         not exits, "no early exit from the loop" if not exits else
+                         f"`{norm(exits[0])}` at line {exits[0].lineno} leaves the loop early: one value for which the "
+                         f"path cannot be resolved (or the first hit) hides all later values", ctx.prog.loc(lp))
         # branches that answer without evaluating _test must not be reachable for queries with a path
         fast = []
         for n in walk_local(f.node):
@@ -557,37 +565,93 @@ def time_range_dispatch(ctx):
             if shape == "suffix" and final != f"set(self.{P}[{mvar}:])":
                 bad.append(f"returns {final}, expected set(self.{P}[{mvar}:]) (positions from the boundary on)")
             if shape in ("run", "corun"):
-                txt = " ".join(norm(s) for s in body)
-                need = [f"set([self.{P}[{mvar}]])", f"{mvar} += 1", f"while {mvar} < len(self.{S})",
-                        f"self.{S}[{mvar}] != ", f".add(self.{P}[{mvar}])"]
-                for t in need:
-                    if t not in txt:
-                        bad.append(f"equal-run scan lacks `{t}`")
-                        break
-                # order inside the while body: compare, add, advance
-                for s in body:
-                    if isinstance(s, ast.While):
-                        kinds = []
-                        for x in s.body:
-                            if isinstance(x, ast.If):
-                                kinds.append("cmp")
-                            elif isinstance(x, ast.Expr):
-                                kinds.append("add")
-                            elif isinstance(x, ast.AugAssign):
-                                kinds.append("adv")
-                        if kinds != ["cmp", "add", "adv"]:
-                            bad.append(f"equal-run loop body order is {kinds}, expected compare, add, advance")
-                        for x in s.body:
-                            if isinstance(x, ast.If) and not any(isinstance(y, ast.Break) for y in x.body):
-                                bad.append("equal-run loop does not stop at the first different timestamp")
-                if shape == "run" and final is not None and final != (
-                        [norm(s.targets[0]) for s in body if isinstance(s, ast.Assign) and "set([" in norm(s.value)] or [None])[0]:
-                    bad.append(f"returns {final}, expected the collected run")
-                if shape == "corun" and (final is None or not (final.startswith(f"set(self.{P}).difference(")
-                                                              or final.startswith(f"set(self.{P}) - "))):
-                    bad.append(f"returns {final}, expected set(self.{P}).difference(<equal run>)")
+                bad += _equal_run_problems(ctx, f, body, mvar, S, P, shape, final)
         yield Ob("C01.R7", ["C01", "C08"], f"{f.qual} | branch {opn}", not bad,
                  "; ".join(bad) if bad else f"{opn}: {helper} + {shape} of the position array", ctx.prog.loc(n))
     missing = set(TIME_SPEC) - seen
     if missing:
         raise AnalysisError("C01.R7", f"time branches not found: {sorted(missing)}")
+
+
+def _equal_run_problems(ctx, f: Func, body, mvar: str, S: str, P: str, shape: str, final) -> list:
+    """Structural check of the scan over the run of equal timestamps (name-agnostic; the scan may
+    live in the branch itself or in a private helper the branch calls)."""
+    bad = []
+    # candidate statement lists: the branch body, and bodies of helpers of Index called from it
+    places = [(body, mvar)]
+    for st in body:
+        for c in ast.walk(st):
+            if isinstance(c, ast.Call) and isinstance(c.func, ast.Attribute) and is_self_attr(c.func):
+                h = ctx.prog.lookup_method("Index", c.func.attr)
+                if h is not None and h is not f and h.name not in ("_search_helper",):
+                    # which helper parameter receives the boundary rank?
+                    hp = None
+                    for i_, a_ in enumerate(c.args):
+                        if isinstance(a_, ast.Name) and a_.id == mvar and i_ + 1 < len(h.params()):
+                            hp = h.params()[i_ + 1]
+                    for k_ in c.keywords:
+                        if isinstance(k_.value, ast.Name) and k_.value.id == mvar:
+                            hp = k_.arg
+                    if hp is not None:
+                        places.append((h.node.body, hp))
+    found = None
+    for stmts, var in places:
+        for st in stmts:
+            if not isinstance(st, (ast.While, ast.For)):
+                continue
+            cmps = [x for x in ast.walk(st) if isinstance(x, ast.Compare) and len(x.ops) == 1
+                    and isinstance(x.ops[0], (ast.NotEq, ast.Eq))
+                    and any(isinstance(y, ast.Subscript) and is_self_attr(y.value, S) for y in ast.walk(x))]
+            adds = [x for x in ast.walk(st) if isinstance(x, ast.Call) and call_name(x) == "add" and x.args
+                    and isinstance(x.args[0], ast.Subscript) and is_self_attr(x.args[0].value, P)]
+            if cmps and adds:
+                found = (stmts, var, st, cmps, adds)
+    if found is None:
+        return ["no scan over the run of equal timestamps (compare S[k] with the probe, collect P[k])"]
+    stmts, var, loop, cmps, adds = found
+    seed = [x for st in stmts if st is not loop for x in ast.walk(st)
+            if isinstance(x, ast.Subscript) and is_self_attr(x.value, P) and norm(x.slice) == var]
+    if not seed:
+        bad.append(f"the boundary position self.{P}[{var}] itself is not collected")
+    if isinstance(loop, ast.While):
+        if norm(loop.test) not in (f"{var} < len(self.{S})", f"len(self.{S}) > {var}"):
+            bad.append(f"scan condition is `{norm(loop.test)}`, expected `{var} < len(self.{S})` (the last entry must be inspected)")
+        idx = var
+    else:
+        idx = norm(loop.target)
+    for c_ in cmps:
+        sub = [y for y in ast.walk(c_) if isinstance(y, ast.Subscript) and is_self_attr(y.value, S)]
+        if any(norm(y.slice) != idx for y in sub):
+            bad.append(f"comparison `{norm(c_)}` does not look at the scanned position `{idx}`")
+        if not any(norm(y).endswith(".timestamp()") for y in [c_.left] + c_.comparators):
+            bad.append(f"comparison `{norm(c_)}` is not against the probe's timestamp")
+    for a_ in adds:
+        if norm(a_.args[0].slice) != idx:
+            bad.append(f"`{norm(a_)}` collects a position other than the scanned one")
+    if isinstance(loop, ast.While):
+        kinds = []
+        for x in loop.body:
+            if isinstance(x, ast.If):
+                kinds.append("cmp")
+                if isinstance(cmps[0].ops[0], ast.NotEq) and not any(isinstance(y, ast.Break) for y in x.body):
+                    bad.append("the scan does not stop at the first different timestamp")
+            elif isinstance(x, ast.Expr) and any(x.value is a_ for a_ in adds):
+                kinds.append("add")
+            elif isinstance(x, ast.AugAssign) and norm(x.target) == idx:
+                kinds.append("adv")
+                if not (isinstance(x.op, ast.Add) and norm(x.value) == "1"):
+                    bad.append(f"the scan advances by `{norm(x)}`")
+        if kinds != ["cmp", "add", "adv"]:
+            bad.append(f"scan body order is {kinds}, expected compare, collect, advance")
+        pre = [x for x in stmts[:stmts.index(loop)] if isinstance(x, ast.AugAssign) and norm(x.target) == idx]
+        if len(pre) != 1 or norm(pre[0].value) != "1":
+            bad.append("the scan does not start at the entry after the boundary")
+    # what the branch finally returns
+    if shape == "run":
+        ok = final is not None and ("_items" not in final) and (not final.startswith("set(self."))
+        if not ok:
+            bad.append(f"returns {final}, expected the collected run")
+    else:
+        if final is None or not (final.startswith(f"set(self.{P}).difference(") or final.startswith(f"set(self.{P}) - ")):
+            bad.append(f"returns {final}, expected set(self.{P}).difference(<equal run>)")
+    return bad
